@@ -420,8 +420,12 @@ class _ReplLockManagerImpl(SyncObjConsumer):
             if currentTime - existingLock[1] > self.__autoUnlockTime:
                 existingLock = None
         # Acquire lock if possible
-        if existingLock is None or existingLock[0] == clientID:
+        if existingLock is None:
             self.__locks[lockID] = (clientID, currentTime)
+            return True
+        if existingLock[0] == clientID:
+            # Commands of one client can overtake each other when leaders change: a lease never moves backwards
+            self.__locks[lockID] = (clientID, max(existingLock[1], currentTime))
             return True
         # Lock already acquired by someone else
         return False
@@ -436,7 +440,7 @@ class _ReplLockManagerImpl(SyncObjConsumer):
                 continue
 
             if lockClientID == clientID:
-                self.__locks[lockID] = (clientID, currentTime)
+                self.__locks[lockID] = (clientID, max(lockTime, currentTime))
 
     @replicated
     def release(self, lockID, clientID):
